@@ -30,7 +30,15 @@ impl<'a> Parser<'a> {
     pub fn parse(&mut self) -> Result<Node, ParseError> {
         let ast = self.generate_ast(OperatorCategory::DefaultZero);
         match ast {
-            Ok(ast) => Ok(ast),
+            Ok(ast) => {
+                if self.current_token != Token::Eof {
+                    return Err(ParseError::InvalidOperator(format!(
+                        "Unexpected trailing token {:?}",
+                        self.current_token
+                    )));
+                }
+                Ok(ast)
+            }
             Err(e) => Err(e),
         }
     }
